@@ -1,6 +1,7 @@
 package symex
 
 import (
+	"strings"
 	"fmt"
 	"go/constant"
 	"go/token"
@@ -439,7 +440,10 @@ func (th *Thread) eval(fr *frame, instr ssa.Value) Value {
 		return Slice{a: a, len: n, cap: c}
 	case *ssa.MakeMap:
 		mt := in.Type().Underlying().(*types.Map)
-		return &MapV{kt: mt.Key(), vt: mt.Elem(), id: m.newID()}
+		// maps made by harness or model code (the I/O models keep side tables keyed by writer,
+		// reader and file) are bookkeeping of the verification layer, not state of the code under
+		// test: they take no part in race detection
+		return &MapV{kt: mt.Key(), vt: mt.Elem(), id: m.newID(), model: strings.Contains(m.posString(in.Pos()), "zz_verif_")}
 	case *ssa.MakeChan:
 		n := th.concreteInt(th.get(fr, in.Size).(*term.Term), "chan size")
 		return &ChanV{cap: n, id: m.newID(), elem: in.Type().Underlying().(*types.Chan).Elem()}
@@ -673,6 +677,9 @@ func (th *Thread) lookup(fr *frame, in *ssa.Lookup) Value {
 	case *MapV:
 		k := th.get(fr, in.Index)
 		vt := in.X.Type().Underlying().(*types.Map).Elem()
+		if c != nil {
+			m.access(th, c, false)
+		}
 		i := c.find(m, k)
 		var v Value
 		if i >= 0 {
